@@ -240,3 +240,90 @@ Definition polyfixed_result (orig : hpoly) (fs : list (label * Qc)) (r : result)
 (* a (labels, rows) table says: column j carries the values of variable labels[j];
    `assignment_of` is what a row means *)
 Definition assignment_of (ls : list label) (row : list Qc) : list (label * Qc) := combine ls row.
+
+(* ------------------------------------------------------------------ *)
+(* the deterministic remainder of the stochastic samplers *)
+
+(* SampleSet.from_samples_bqm((rows, ls), bqm): energies computed from the bqm by label;
+   no rows -> the empty sample set over the bqm's variables *)
+Definition from_samples_bqm (e : sample -> Qc) (vars ls : list label) (rows : list (list Qc)) : result :=
+  match rows with
+  | [] => mkRes vars [] []
+  | _ => mkRes ls rows (map (fun row => e (row_sample ls row)) rows)
+  end.
+
+(* sort_labels=True: the columns are re-ordered to the sorted labels ls' *)
+Definition reorder_columns (ls' : list label) (r : result) : result :=
+  mkRes ls' (map (reindex_row ls' (r_labels r)) (r_rows r)) (r_energies r).
+
+(* SimulatedAnnealingSampler.sample: spins found for (h, J, offset) = bqm.to_ising(),
+   SampleSet.from_samples(spins, SPIN, ising energies), change_vartype(bqm.vartype, offset).
+   `rows` are whatever spin rows the annealer ended in. *)
+Definition honest_table (ls : list label) (rows : list (list Qc)) (q : poly) : result :=
+  mkRes ls rows (map (fun row => energy q (row_sample ls row)) rows).
+
+Definition sa_sample (binary : bool) (vars : list label) (p : poly) (ls : list label)
+           (rows : list (list Qc)) : result :=
+  if binary then sample_binary_via_ising (honest_table ls rows) vars p
+  else sample_same_vartype (honest_table ls rows) p.
+
+(* NullSampler *)
+Definition null_sample (vars : list label) : result := mkRes vars [] [].
+
+(* IdentitySampler / RandomSampler: Initialized.parse_initial_states.  None = ValueError. *)
+Inductive isg := GNone | GTile | GRandom.
+
+Definition tile_rows (n : nat) (rows : list (list Qc)) : list (list Qc) :=
+  let len := length rows in
+  concat (repeat rows (n / len)) ++ firstn (n mod len) rows.
+
+(* `extra`: the rows drawn by the 'random' generator (max(0, num_reads - len) of them) *)
+Definition identity_rows (g : isg) (n : nat) (init extra : list (list Qc)) : option (list (list Qc)) :=
+  match g with
+  | GNone => if (length init <? n)%nat then None else Some init
+  | GTile => if (length init <? 1)%nat then None
+             else if (n <=? length init)%nat then Some init else Some (tile_rows n init)
+  | GRandom => Some (init ++ extra)
+  end.
+
+Definition identity_sample (g : isg) (num_reads : option nat) (e : sample -> Qc) (vars ls : list label)
+           (conv : list Qc -> list Qc) (init extra : list (list Qc)) : option result :=
+  if negb (same_label_set vars ls) then None          (* mismatch between variables *)
+  else
+    let init' := map conv init in
+    let n := match num_reads with
+             | Some n => n
+             | None => match length init' with O => 1%nat | k => k end
+             end in
+    if (n <? 1)%nat then None
+    else match identity_rows g n init' extra with
+         | None => None
+         | Some rows => Some (from_samples_bqm e vars ls (firstn n rows))
+         end.
+
+(* ------------------------------------------------------------------ *)
+(* StructureComposite (decorators.bqm_structured) and TrackingComposite *)
+
+Definition adjacent (edges : list (label * label)) (u v : label) : bool :=
+  existsb (fun e => same_pair u v (fst e) (snd e)) edges.
+
+Definition structured (nodes : list label) (edges : list (label * label))
+           (vars : list label) (quad : list (label * label)) : bool :=
+  forallb (fun v => mem_nat v nodes) vars && forallb (fun uv => adjacent edges (fst uv) (snd uv)) quad.
+
+(* None = BinaryQuadraticModelStructureError, raised before the child is called *)
+Definition structure_sample {I} (nodes : list label) (edges : list (label * label))
+           (vars : list label) (quad : list (label * label)) (child : I -> result) (bqm : I) : option result :=
+  if structured nodes edges vars quad then Some (child bqm) else None.
+
+Record tracker (I : Type) := mkTracker { t_inputs : list I; t_outputs : list result }.
+Arguments mkTracker {I}. Arguments t_inputs {I}. Arguments t_outputs {I}.
+
+Definition tracking_sample {I} (t : tracker I) (child : I -> result) (inp : I) : tracker I * result :=
+  let out := child inp in
+  (mkTracker (t_inputs t ++ [inp]) (t_outputs t ++ [out]), out).
+
+(* ------------------------------------------------------------------ *)
+(* ExactCQMSolver: the enumerated rows as samples of the CQM (labels = column order) *)
+Definition cqm_case_samples (order : list label) (sizes : list nat) (doms : list vdom) : list sample :=
+  map (fun row => row_sample order (map (fun z => Q2Qc (inject_Z z)) row)) (all_cases_cqm sizes doms).
